@@ -223,7 +223,7 @@ def g_ranking(rng, cands, shared=True):
     i = 0
     while i < len(pick):
         if shared and i + 1 < len(pick) and rng.random() < 0.15:
-            out.append(S(pick[i:i + 2]))
+            out.append(S(sorted(pick[i:i + 2])))
             i += 2
         else:
             out.append(pick[i])
